@@ -46,7 +46,7 @@ let run (lines : string list) =
       match tok with
       | _ :: _ :: _ :: c :: num :: den :: mode :: mem :: rest ->
           let (capn, nn, dn) =
-            if c = "default" then (dEFAULT_CAPACITY, dEFAULT_EXPANSION_FACTOR_num, dEFAULT_EXPANSION_FACTOR_den)
+            if c = "default" then (pQUEUE_DEFAULT_CAPACITY, pQUEUE_DEFAULT_EXPANSION_FACTOR_num, pQUEUE_DEFAULT_EXPANSION_FACTOR_den)
             else (n_of_string c, n_of_string num, n_of_string den) in
           let tg = if mem = "conf" then Conf else Libc in
           let plan = match rest with p :: _ when String.length p >= 5 && String.sub p 0 5 = "plan=" -> String.sub p 5 (String.length p - 5) | _ -> "" in
